@@ -12,9 +12,12 @@ import (
 	"encoding/json"
 	"fmt"
 	"io"
+	"math/rand"
 	"os"
+	"reflect"
 	"runtime"
 	"runtime/debug"
+	"slices"
 	"strings"
 	"sync"
 	"sync/atomic"
@@ -130,7 +133,7 @@ func runJob(j *sup.Job) (res sup.Result) {
 			res.Seq = append(res.Seq, runJob(&sj))
 		}
 	case "modes":
-		res.Modes = modeTable()
+		res.Modes = modeTable(j.Seed)
 	case "parse":
 		doParse(j, &res)
 	case "typecheck", "defs":
@@ -502,26 +505,52 @@ func runRace(j *sup.Job, res *sup.Result, rr *sup.RunResult, re *process.Runtime
 
 // ---- modes ----
 
-func modeTable() *sup.ModeTable {
+func modeTable(seed uint64) *sup.ModeTable {
 	ms := []types.Modality{types.NewReplicableMode(), types.NewMulticastMode(), types.NewAffineMode(), types.NewLinearMode()}
-	t := &sup.ModeTable{Spell: map[string]string{}}
-	for _, m := range ms {
-		t.Names = append(t.Names, m.String())
-		t.Weaken = append(t.Weaken, m.AllowsWeakening())
-		t.Contract = append(t.Contract, m.AllowsContraction())
-		var d, u, e []bool
-		for _, k := range ms {
-			d = append(d, m.CanBeDownshiftedTo(k))
-			u = append(u, m.CanBeUpshiftedTo(k))
-			e = append(e, m.Equals(k))
+	t := &sup.ModeTable{Spell: map[string]string{}, SpellAll: map[string][]string{}, TablesStable: true}
+	tables := func() (names []string, weaken, contract []bool, down, up, eq [][]bool) {
+		for _, m := range ms {
+			names = append(names, m.String())
+			weaken = append(weaken, m.AllowsWeakening())
+			contract = append(contract, m.AllowsContraction())
+			var d, u, e []bool
+			for _, k := range ms {
+				d = append(d, m.CanBeDownshiftedTo(k))
+				u = append(u, m.CanBeUpshiftedTo(k))
+				e = append(e, m.Equals(k))
+			}
+			down = append(down, d)
+			up = append(up, u)
+			eq = append(eq, e)
 		}
-		t.Down = append(t.Down, d)
-		t.UpT = append(t.UpT, u)
-		t.Equals = append(t.Equals, e)
+		return
 	}
-	for _, s := range []string{"r", "rep", "replicable", "m", "mul", "multicast", "a", "aff", "affine", "l", "lin", "linear",
-		"R", "Rep", "LIN", "Linear", "x", "", "unset", "shared", "linn"} {
-		t.Spell[s] = types.StringToMode(s).String()
+	t.Names, t.Weaken, t.Contract, t.Down, t.UpT, t.Equals = tables()
+	spellings := []string{"r", "rep", "replicable", "m", "mul", "multicast", "a", "aff", "affine", "l", "lin", "linear",
+		"R", "Rep", "LIN", "Linear", "Affine", "AFF", "Mul", "Multicast", "Replicable", "A", "L", "M", "x", "", "unset", "shared", "linn", "affin", "li", "re"}
+	// the same questions in many seeded orders (any state carried from one call to the next
+	// shows as a second answer for one spelling), with programs parsed in between
+	r := rand.New(rand.NewSource(int64(seed)))
+	t.Rounds = 12
+	for round := 0; round < t.Rounds; round++ {
+		order := r.Perm(len(spellings))
+		for _, i := range order {
+			s := spellings[i]
+			a := types.StringToMode(s).String()
+			if round == 0 {
+				t.Spell[s] = a
+			}
+			if !slices.Contains(t.SpellAll[s], a) {
+				t.SpellAll[s] = append(t.SpellAll[s], a)
+			}
+		}
+		if round%3 == 1 {
+			parser.ParseString("type A = Affine 1\ntype B = LINEAR 1 * B\nprc[a] : Rep 1 = close self\n")
+		}
+		n, w, c, d, u, e := tables()
+		if !reflect.DeepEqual([]interface{}{n, w, c, d, u, e}, []interface{}{t.Names, t.Weaken, t.Contract, t.Down, t.UpT, t.Equals}) {
+			t.TablesStable = false
+		}
 	}
 	t.Spell["<fullstrings>"] = strings.Join([]string{ms[0].FullString(), ms[1].FullString(), ms[2].FullString(), ms[3].FullString()}, ",")
 	t.Spell["<default>"] = types.DefaultMode().String()
